@@ -130,10 +130,10 @@ type zzRefBlock struct {
 	sig  []byte
 }
 type zzRef struct {
-	height   uint64
-	blocks   map[uint64]*zzRefBlock
-	state    *types.State
-	meta     map[string][]byte
+	height uint64
+	blocks map[uint64]*zzRefBlock
+	state  *types.State
+	meta   map[string][]byte
 }
 
 var zzHeights = []uint64{1, 10, 1 << 40}
